@@ -367,6 +367,15 @@ fn judge(c: &C09Case, cd: &CaseDir, built: &Built, have_other: bool) -> Verdict 
             roots.push(dirs[pick(*s, dirs.len())].clone());
         }
     }
+    if c.stdin {
+        // lines of --stdin are paths, byte for byte: a root whose name begins and ends with a blank
+        let ws = tree.join(" pad ");
+        if std::fs::create_dir_all(&ws).is_ok() {
+            let _ = std::fs::write(ws.join(" f "), b"blank-padded");
+            let _ = std::fs::write(ws.join("g"), b"blank-padded");
+            roots.push(ws);
+        }
+    }
     let mut args: Vec<OsString> = vec!["group".into(), "--rf-over".into(), "0".into(), "-f".into(), "json".into()];
     let mut sig: Vec<String> = vec![];
     if let Some(d) = c.depth {
@@ -568,7 +577,7 @@ pub fn check(tier: Tier) -> i32 {
     cleanup_process_scratch();
     ctx.finish(
         "exploration",
-        "proptest-generated trees (nesting 0-4, names with regex metacharacters, blanks, brackets, non-ASCII and leading dots, .gitignore/.fdignore files from a restricted grammar {name, *.ext, /anchored, dir/, !negation within one file}, hard links, relative/absolute (canonical or through `..`)/dangling/cyclic symlinks, a sub-tree and a single file on the other device reached through symlinks) x --depth 0-5, --hidden, --no-ignore, -L, -S, --min/--max, --name/--path/--exclude as globs or (small grammar) regexes, absolute or relative to a working directory inside the tree, -i with case-flipped patterns, --one-fs, overlapping and repeated roots given as arguments or through --stdin; with --no-ignore, half of the cases also have a user-level ignore file ($XDG_CONFIG_HOME/git/ignore) that must then have no effect. Observation: `group --rf-over 0 -f json` lists every selected file. Oracle: reference walk written from README/--help (pruning does not exist in it): exact set equality, no path twice. Non-trivial = the expected set is non-empty, differs from 'all files' and contains a file deeper than level 2 or below a directory with a metacharacter / non-ASCII name.",
+        "proptest-generated trees (nesting 0-4, names with regex metacharacters, blanks, brackets, non-ASCII and leading dots, .gitignore/.fdignore files from a restricted grammar {name, *.ext, /anchored, dir/, !negation within one file}, hard links, relative/absolute (canonical or through `..`)/dangling/cyclic symlinks, a sub-tree and a single file on the other device reached through symlinks) x --depth 0-5, --hidden, --no-ignore, -L, -S, --min/--max, --name/--path/--exclude as globs or (small grammar) regexes, absolute or relative to a working directory inside the tree, -i with case-flipped patterns, --one-fs, overlapping and repeated roots given as arguments or through --stdin (there with one more root whose name begins and ends with a blank); with --no-ignore, half of the cases also have a user-level ignore file ($XDG_CONFIG_HOME/git/ignore) that must then have no effect. Observation: `group --rf-over 0 -f json` lists every selected file. Oracle: reference walk written from README/--help (pruning does not exist in it): exact set equality, no path twice. Non-trivial = the expected set is non-empty, differs from 'all files' and contains a file deeper than level 2 or below a directory with a metacharacter / non-ASCII name.",
         &["outside the generated domain (documentation does not settle them): hidden root names, .gitignore and .fdignore in one directory, negation in a deeper ignore file overriding a parent's rule, ignore files together with -L", "regex mode uses three pattern shapes with a reference predicate each"],
     )
 }
